@@ -134,6 +134,7 @@ def cacheScan (c : Cache) (hi : Nat) : Cache × List Nat × List (Nat × Nat) :=
   let mut c := c
   let mut occ : List Nat := []
   let lo := c.next
+  let hi := min hi (lo + 63)
   for k in [0:hi + 1 - lo] do
     let h := lo + k
     match c.insert h 0 with
@@ -344,7 +345,7 @@ def run (lines : Array String) : Driver.Report := Id.run do
           r := r.check n line impl s!"occ={occS} popped={popS} | {fmtCache c'}"
           r := r.bump "cscan"
           -- monitor: what is still held according to the implementation's own earlier answers
-          let heldNow := (st.cHeld.filter (fun e => st.cNext ≤ e.1 ∧ e.1 ≤ hi.toNat!)).map (·.1)
+          let heldNow := (st.cHeld.filter (fun e => st.cNext ≤ e.1 ∧ e.1 ≤ min hi.toNat! (st.cNext + 63))).map (·.1)
           let occI := (getField ires "occ").getD "?"
           let expect := if heldNow.isEmpty then "-" else ",".intercalate ((heldNow.mergeSort (· ≤ ·)).map toString)
           if occI ≠ expect then
